@@ -60,6 +60,7 @@ def main(args):
     jobs = 4
     seeded = False
     allprops = False
+    extra_neutral = None
     i = 0
     while i < len(args):
         if args[i] == '--only':
@@ -74,12 +75,21 @@ def main(args):
         elif args[i] == '--all-props':
             allprops = True
             i += 1
+        elif args[i] == '--neutral-dir':
+            extra_neutral = args[i + 1]
+            i += 2
         else:
             i += 1
     cases = []
+    if extra_neutral:
+        for f in sorted(os.listdir(extra_neutral)):
+            if f.endswith('.diff'):
+                cases.append(('neutral', f[:-5], os.path.abspath(os.path.join(extra_neutral, f)), {}, ALL))
     bdir = os.path.join(VERIF, 'selftest', 'break')
     ndir = os.path.join(VERIF, 'selftest', 'neutral')
-    if not seeded:
+    if extra_neutral:
+        pass
+    elif not seeded:
         for f in sorted(os.listdir(bdir)) if os.path.isdir(bdir) else []:
             if f.endswith('.diff'):
                 name = f[:-5]
@@ -113,6 +123,6 @@ def main(args):
             print(line)
             if res['status'] != 'OK':
                 bad += 1
-                print('    ', json.dumps(res.get('detail'))[:600])
+                print('    ', json.dumps(res.get('detail'))[:(100000 if os.environ.get('BGCHECK_FULL') else 600)])
     print('selftest: %d cases, %d not as expected' % (len(cases), bad))
     return 1 if bad else 0
